@@ -96,7 +96,18 @@ package align
 //@ func Local
 //@   props C08 C09
 //@   witness blocks
+//@   witness T0 from traceAlignmentStepsLocal
+//@   witness imax from traceAlignmentStepsLocal
 //@   let G := 255
+//@   let ea := idiv(imax, len(b) + 1)
+//@   let eb := imod(imax, len(b) + 1)
+//@   use-lemma pathScoreL(fieldarr(blocks, score), fieldarr(blocks, step), a, b, len(a), len(b), mapval(m), T0, len(T0), imax, len(T0))
+//@   use-lemma len(T0) >= 1 ==> pathScoreL(fieldarr(blocks, score), fieldarr(blocks, step), a, b, len(a), len(b), mapval(m), T0, len(T0), imax, len(T0) - 1)
+//@   ensures @C08 len(result.0) == len(T0) && forall x int :: 0 <= x && x < len(result.0) ==> result.0[x] == T0[len(result.0) - 1 - x]
+//@   ensures @C08 forall x int :: 0 <= x && x < len(T0) ==> T0[x] == 1 || T0[x] == 2 || T0[x] == 3
+//@   ensures @C08 result.3 > 0.0 ==> 0 <= imax && imax < len(blocks) && ea <= len(a) && eb <= len(b)
+//@   ensures @C08 result.3 > 0.0 ==> result.1 >= 0 && result.2 >= 0 && result.1 + ra(T0, len(T0)) == ea && result.2 + rb(T0, len(T0)) == eb
+//@   ensures @C08 result.3 > 0.0 ==> result.3 == rscore(T0, a, b, ea, eb, mapval(m), len(T0))
 //@   requires imul(len(a) + 1, len(b) + 1) <= 4611686018427387904
 //@   ensures len(blocks) == imul(len(a) + 1, len(b) + 1)
 //@   ensures forall c int :: 0 <= c && c < len(blocks) ==> cellL(fieldarr(blocks, score), fieldarr(blocks, step), a, b, len(b) + 1, mapval(m), c) && blocks[c].score >= 0.0
@@ -115,6 +126,8 @@ package align
 
 //@ func traceAlignmentStepsLocal
 //@   props C08 C09
+//@   witness T0
+//@   witness imax
 //@   requires bn >= 1 && len(blocks) >= 1 && bn <= 144115188075855872
 //@   requires forall c int :: 0 <= c && c < len(blocks) ==> blocks[c].score >= 0.0
 //@   requires forall c int :: 0 <= c && c < len(blocks) && blocks[c].score > 0.0 ==>
@@ -123,12 +136,29 @@ package align
 //@   ensures result.2 == 0.0 ==> len(result.0) == 0
 //@   ensures 0 <= result.1 && result.1 < len(blocks)
 //@   ensures forall c int :: 0 <= c && c < len(blocks) ==> blocks[c].score <= result.2
+//@   ensures @C08 0 <= imax && imax < len(blocks) && result.2 == blocks[imax].score
+//@   ensures @C08 len(result.0) == len(T0) && forall x int :: 0 <= x && x < len(result.0) ==> result.0[x] == T0[len(result.0) - 1 - x]
+//@   ensures @C08 result.2 > 0.0 ==> forall j int :: {pcT(T0, bn, imax, j)} 0 <= j && j < len(T0) ==>
+//@             0 < pcT(T0, bn, imax, j) && pcT(T0, bn, imax, j) < len(blocks) && T0[j] == blocks[pcT(T0, bn, imax, j)].step &&
+//@             blocks[pcT(T0, bn, imax, j)].score > 0.0
+//@   ensures @C08 result.2 > 0.0 ==> 0 <= pcT(T0, bn, imax, len(T0)) && pcT(T0, bn, imax, len(T0)) < len(blocks) &&
+//@             blocks[pcT(T0, bn, imax, len(T0))].score == 0.0
+//@   ensures @C08 result.2 > 0.0 ==> len(T0) >= 1 && result.1 == pcT(T0, bn, imax, len(T0) - 1)
+//@   ensures @C08 forall x int :: 0 <= x && x < len(T0) ==> T0[x] == 1 || T0[x] == 2 || T0[x] == 3
 //@   loop 1
 //@     invariant 0 <= i && i < len(blocks) && 0 <= last && last < len(blocks) && 0 <= imax && imax < len(blocks)
 //@     invariant forall c int :: 0 <= c && c < len(blocks) ==> blocks[c].score <= blocks[imax].score
+//@     invariant @C08 i == pcT(steps, bn, imax, len(steps))
+//@     invariant @C08 forall x int :: 0 <= x && x < len(steps) ==> steps[x] == 1 || steps[x] == 2 || steps[x] == 3
+//@     invariant @C08 forall j int :: {pcT(steps, bn, imax, j)} 0 <= j && j < len(steps) ==>
+//@                 0 < pcT(steps, bn, imax, j) && pcT(steps, bn, imax, j) < len(blocks) && steps[j] == blocks[pcT(steps, bn, imax, j)].step &&
+//@                 blocks[pcT(steps, bn, imax, j)].score > 0.0
+//@     invariant @C08 last == (len(steps) == 0 ? imax : pcT(steps, bn, imax, len(steps) - 1))
 //@     decreases i
+//@     snapshot-after T0 := steps
 //@   loop 2
-//@     invariant 0 <= i
+//@     invariant 0 <= i && len(steps) == len(T0) && 2 * i <= len(steps) + 1
+//@     invariant forall x int :: 0 <= x && x < len(steps) ==> steps[x] == ((x < i || x > len(steps) - 1 - i) ? T0[len(steps) - 1 - x] : T0[x])
 
 // ---- shipped matrices (C09) ----
 
